@@ -207,6 +207,14 @@ func generateOverlay(repo, verif, scratch, flavour string) (string, *instrStats,
 				edits = append(edits, edit{off(im.Pos()), off(im.End()), name + ` "` + modPath + `/internal/verifx/vsync"`})
 				stats.SyncFiles++
 			}
+			if path == "sync/atomic" {
+				name := "atomic"
+				if im.Name != nil {
+					name = im.Name.Name
+				}
+				edits = append(edits, edit{off(im.Pos()), off(im.End()), name + ` "` + modPath + `/internal/verifx/vatomic"`})
+				stats.SyncFiles++
+			}
 		}
 
 		ast.Inspect(f, func(n ast.Node) bool {
